@@ -18,6 +18,7 @@ BCAST = 'broadcast use {crate::ax::rc_clone_eq, crate::ax::string_peq};'
 
 
 RESOLVE_OB = 'shape:emitted-file#member-types-resolve'
+UNIQUE_OB = 'shape:emitted-file#member-names-unique'
 
 
 class Program(Unit):
@@ -139,7 +140,7 @@ class Program(Unit):
 
     def front_end_obligations(self, out):
         return [c.label for c in out.chunks if c.label and (c.label.startswith('shape:') or c.label.startswith('sig:'))] + \
-               ([RESOLVE_OB] if self.concern in ('C02', 'C08', 'C09') else [])
+               ([RESOLVE_OB] if self.concern in ('C02', 'C08', 'C09') else []) + ([UNIQUE_OB] if self.concern in ('C02', 'C08') else [])
 
     def front_end_failures(self, out, vr, text):
         """compile errors whose primary span lies in a shape / signature chunk"""
@@ -156,6 +157,22 @@ class Program(Unit):
                 if info.get('kind') == 'contract' and info.get('label') and (info['label'].startswith('shape:') or info['label'].startswith('sig:')):
                     hit = info['label']
                     break
+            dup = re.match(r'field `\w+` is already declared', d.message)
+            if not hit and self.concern in ('C02', 'C08') and dup:
+                # two declared members map to the same Rust field name: "exactly one field per declared element and attribute" fails
+                for sp_ in d.spans:
+                    if os.path.basename(sp_.get('file_name', '')) != fname:
+                        continue
+                    info = out.describe(sp_['line_start'])
+                    if info.get('kind') == 'code' and str(info.get('file', '')).startswith('emitted:'):
+                        f = Failure(self.name, UNIQUE_OB, 'two declared members are emitted under the same field name: ' + d.message,
+                                    [{'file': info['file'], 'line': info.get('line', 0), 'text': lines[sp_['line_start'] - 1].strip() if 0 < sp_['line_start'] <= len(lines) else '', 'what': 'emitted line'}], d.rendered)
+                        f.props = [self.concern]
+                        fails.append(f)
+                        break
+                else:
+                    other += 1
+                continue
             if not hit and self.concern in ('C02', 'C08', 'C09') and re.match(r'cannot find (type|struct)|failed to resolve|unresolved', d.message):
                 # the EMITTED item itself names a type that does not exist where it is used: the member is not typed by the
                 # struct generated for its declared type
